@@ -140,7 +140,7 @@ func init() {
 		}
 		return ret1(decT(c.S.load(p).(*BigV).T))
 	})
-	reg("("+sdkT+".Dec).MustFloat64", func(c *CallCtx, a []Value) []Outcome { return ret1(&FloatV{0}) })
+	reg("("+sdkT+".Dec).MustFloat64", func(c *CallCtx, a []Value) []Outcome { return ret1(&FloatV{F: 0}) })
 	// regexp objects created during package init
 	reg("regexp.MustCompile", func(c *CallCtx, a []Value) []Outcome {
 		p := a[0].(*Term)
